@@ -38,6 +38,9 @@ class SeqSource:
             self._elems[suffix] = self.elem_builder(suffix)
         return self._elems[suffix]
 
+    def canonical_items(self):
+        return [(k, v) for k, v in self._elems.items() if not k.startswith('@')]
+
 
 class SSeq:
     """pipe = source + a chain of stages ('filter' | 'sort' | 'map', fn); fn maps the current element value to a value.
